@@ -633,6 +633,11 @@ impl Python {
                 RustEnumVariant::AnonymousStruct { shared, .. } => shared.id.renamed.clone(),
             })
             .map(|name| (name.to_case(Case::Snake).to_uppercase(), name))
+            // the member name is derived from the wire name, which may start with a digit ("2fa")
+            .map(|(key, name)| match key.chars().next() {
+                Some(c) if c.is_ascii_digit() => (format!("_{key}"), name),
+                _ => (key, name),
+            })
             .collect::<Vec<(String, String)>>();
         let enum_type_class_name = format!("{}Types", shared.id.renamed);
         self.add_import("enum".to_string(), "Enum".to_string());
